@@ -555,13 +555,14 @@ def gcc_feature(kind, msg, line, ir, findings, stderr=""):
     """the emission mechanism behind a gcc rejection (stable, no random values)"""
     if kind == "non-integer subscript":
         return "const_div_folded_to_float"
-    m = _WIN_NOTE.search(stderr)
-    if m and m.group(1) == m.group(3) and m.group(2) != m.group(4):
-        return "window_struct_constness"
-    if kind == "request for member" and ".strides[" in line:
-        return "stride_of_renamed_buffer"
     if kind in ("array size missing", "storage size unknown") and re.search(r"\w\[\];", line):
         return "scalar_alloc_in_array_memory"
+    if kind == "request for member" and ".strides[" in line:
+        return "stride_of_renamed_buffer"
+    if kind == "incompatible type":
+        m = _WIN_NOTE.search(stderr[stderr.find("error:"):].split("error:", 2)[1] if "error:" in stderr else "")
+        if m and m.group(1) == m.group(3) and m.group(2) != m.group(4):
+            return "window_struct_constness"
     if kind == "implicit declaration" and _nested_extern(ir):
         return "nested_extern_helper_missing"
     if "--" in line and "for (" not in line and ("decrement" in msg or kind in ("lvalue required", "write to const")):
@@ -657,7 +658,7 @@ class C15Monitor(Monitor):
     def reset(self):
         self.seen_fp = set()
         self.fired = set()
-        self.prev_kinds = set()
+        self.first_seen = {}  # (kind, proc, detail) -> operation after which the judge first reported it
 
     # -- the two monitors on one compile attempt -----------------------------
     def check(self, sess, proc, via):
@@ -702,8 +703,8 @@ class C15Monitor(Monitor):
                 ctx.stat(f"judge.inconsistent.{k}")
         else:
             ctx.stat("judge.consistent")
-        new_kinds = [k for k in kinds if k not in self.prev_kinds]
-        self.prev_kinds = set(kinds)
+        for f in findings:
+            self.first_seen.setdefault((f["kind"], f["proc"], f["detail"]), via.split(":")[0])
 
         if exc is not None:
             en = type(exc).__name__
@@ -728,9 +729,9 @@ class C15Monitor(Monitor):
                 continue
             self.fired.add(key)
             f = next(x for x in findings if x["kind"] == k)
-            # the mechanism: which operation brought the inconsistency in ("source": as written;
-            # "call_eqv": a callee re-annotated by set_* steps; "earlier": present before this step)
-            sig = {"prop": "C15", "monitor": "annot-judge", "kind": k, "introduced_by": via.split(":")[0] if k in new_kinds else "earlier"}
+            # the mechanism: the operation that brought the inconsistency in ("source": as written;
+            # "call_eqv": through a callee re-annotated by set_* steps)
+            sig = {"prop": "C15", "monitor": "annot-judge", "kind": k, "introduced_by": self.first_seen[(f["kind"], f["proc"], f["detail"])]}
             case = mk_case(sess, sess.steps, "annot-judge", None, {
                 "kind": k, "finding": dict(f), "all_findings": [dict(x) for x in findings][:8],
                 "proc": sstr(proc, 3000), "annotations": annot.annotation_vector(ir)[:40],
